@@ -41,7 +41,11 @@ def _one(case, rec, cid, p):
     fmt = fmt_text(toks)
     pp = proj_tp(p)
     has_s = any(t["d"] == "s" for t in toks)
-    st, v = outcome(lambda: p.strftime(fmt))
+    if case.get("via") == "dumper":      # the same operation through the dumper object
+        from metomi.isodatetime.dumpers import TimePointDumper
+        st, v = outcome(lambda: TimePointDumper().strftime(p, fmt))
+    else:
+        st, v = outcome(lambda: p.strftime(fmt))
     if st == "ok":
         sd = ss = 0
         isint = False
@@ -122,6 +126,8 @@ def expand(job):
             continue
         toks, _ = rand_format(rnd)
         case = {"mode": sp, "p": p, "toks": toks, "az": rnd.choice([[0, 0], [5, 30], [-3, -30], [0, -30], [0, 45], [-9, -30], [13, 0], [-11, 0]]), "strp": True}
+        if rnd.random() < 0.2:
+            case["via"] = "dumper"
         if rnd.random() < 0.25:
             case["also"] = rnd.choice([[5, 30], [-3, -30], [13, 45], [-11, 0], [0, 0], [1, 0]])
         yield case
